@@ -51,6 +51,12 @@ CHECKS.update({
          "Streams with PAT before PMT; bytes.Reader as the seekable reader.", "5 C20"),
 })
 
+CHECKS.update({
+ "C03": (FE, "exhaustive fault-position enumeration (every byte x mutation class, truncation at every offset) on base streams plus dispatch x truncation products exhaustive in the control bytes, each run on the real Demuxer under a progress/termination oracle with a hang watchdog",
+         "No panic, every call makes progress (consumes input, returns data or ErrNoMorePackets), ErrNoMorePackets within len/8+16 calls and sticky afterwards - over every single-byte mutation and truncation of three base streams x packet size {auto,188} x 4 reader kinds x 2 APIs x options, enlarged-packet forms 189/192/204/376, garbage inputs, and products: 256 AF flag bytes x 184 lengths x 8 extension flag sets; 256 x 256 PES flag/extension-flag bytes x header_data_length classes x every cut; 256 table ids x section lengths x PIDs; 256 descriptor tags x declared lengths x available bytes.",
+         "'Every byte sequence' is decided only for the enumerated neighbourhoods and products. One open known finding (failed auto-detection never reaches ErrNoMorePackets).", "5 C03"),
+})
+
 NOT_YET = {}
 
 def main():
